@@ -283,7 +283,8 @@ fn c17_ws_server_burst(case: &Case) {
         .map(|_| {
             if simkernel::choose(3) != 0 {
                 let k = range(2, 6) as usize;
-                Op::Burst { sizes: (0..k).map(|_| draw_size(limit, 48 + "/pushed".len())).collect(), broadcast: simkernel::choose(2) == 0 }
+                // (at least 8 body bytes: an empty body would match every tag's pattern)
+                Op::Burst { sizes: (0..k).map(|_| draw_size(limit, 48 + "/pushed".len() + 8)).collect(), broadcast: simkernel::choose(2) == 0 }
             } else {
                 let off = simkernel::choose(2) == 0;
                 Op::Resp { size: draw_size(limit, 48 + if off { "/sized_off".len() } else { "/sized".len() }), off }
